@@ -541,7 +541,8 @@ class BrownianInterval(brownian_base.BaseBrownian, _Interval):
         if tol == 0.:
             self._round = lambda x: x
         else:
-            ndigits = -int(math.log10(tol))
+            # Round to a grid that is at least as fine as `tol` (also when `tol` is not a power of ten).
+            ndigits = math.ceil(-math.log10(tol))
             self._round = lambda x: round(x, ndigits)
 
         # Initalise as _Interval.
